@@ -9,7 +9,9 @@ from props.common import merge
 sys.path.insert(0, os.path.join(os.path.dirname(os.path.dirname(os.path.abspath(__file__))), 'corr'))
 import tractcorr
 
-THRU = [' - ', '-', ' – ', '—', ' through ', ' thru ', ' to ', '- ', ' -', ' Through ', ' THROUGH ', ' Thru ', ' THRU ', ' TO ']
+# incl. the abbreviated / misspelled forms the through-pattern accepts (`th[rough]{3,6}\.?`, `thru\.?`), with their optional period
+THRU = [' - ', '-', ' – ', '—', ' through ', ' thru ', ' to ', '- ', ' -', ' Through ', ' THROUGH ', ' Thru ', ' THRU ', ' TO ',
+        ' through. ', ' thru. ', ' throu. ', ' thrgh. ', ' thrugh ', ' throug. ']
 AND = [' and ', ' & ', ', ', ', and ', ',', ' and, ', ' AND ', ' And ']
 # every spelling of the keyword the library's own pattern lists, the misspellings included ('Secton' and 'Seciton' contain the range word 'to')
 SEC_SING = ['Section', 'Sec', 'Sec.', 'Sect.', 'section', 'SECTION', '§', 'Sect', 'Secton', 'Seciton', 'Secion', 'Sectn', 'Secn', 'SECTON']
